@@ -3,12 +3,14 @@
   Property theorems about the impl-models in `JaqVerif/C14/*.lean` (helper lemmas in
   `Lemmas/C14*.lean`).  Third-party components are arguments / recorded contracts:
   saphyr (`saphyrPlain`, `plainContract`), base64 (`b64enc/b64dec`), ryu (`fmt`),
-  `String::from_utf8_lossy` (`lossy`), ciborium's byte-level header codec, toml_span.
+  `String::from_utf8_lossy` (`lossy`), ciborium's byte-level header codec, toml_span,
+  xmlparser (abstract token streams `Xml.Tok`, contract of `Xml.render`).
 -/
 import JaqVerif.Lemmas.C14Yaml
 import JaqVerif.Lemmas.C14Tab
 import JaqVerif.Lemmas.C14Cbor
 import JaqVerif.Lemmas.C14Toml
+import JaqVerif.Lemmas.C14Xml
 
 namespace Jaq.C14.Props
 open Jaq Jaq.C14 Jaq.C14.Yaml
@@ -50,6 +52,19 @@ theorem yaml_fix_only_adds_quotes (s : Bytes) (h : mustQuote s = true) : mustQuo
   cases hf : mustQuoteFixed s with
   | true => rfl
   | false => rw [(YamlLemmas.mustQuoteFixed_false s hf).1] at h; cases h
+
+/-- The work-around for `yaml-flow:blank-dash-end` (quote strings ending in blank + `-`) only adds
+quotes, so `yaml_plain_is_string_fixed` holds for it as well; and the witness `"a -"` is plain
+before and quoted after. -/
+theorem yaml_blank_dash_fix_only_adds_quotes (s : Bytes) (h : mustQuoteFixed2 s = false) :
+    plainContract s = true ∧ saphyrPlain s = s ∧ readPlain s = .ok (.tstr s) := by
+  unfold mustQuoteFixed2 at h
+  simp only [Bool.or_eq_false_iff] at h
+  exact yaml_plain_is_string_fixed s h.1
+
+theorem yaml_blank_dash_witness :
+    mustQuoteFixed [97, 32, 45] = false ∧ mustQuoteFixed2 [97, 32, 45] = true ∧
+    mustQuoteFixed2 [97, 45] = false ∧ mustQuoteFixed2 [97, 32, 45, 32, 98] = false := by decide
 
 /-- F-14, sign-led numbers: `"+1" "+0x1F" "+12e03"` are left plain and read back as numbers. -/
 theorem yaml_f14_sign_led :
@@ -292,5 +307,72 @@ TOML reader can lex as a key; the fixed writer quotes it. -/
 theorem toml_f14b_witness :
     keyIsBare false [] = true ∧ lexBareKey ([] ++ [32, 61, 32, 49]) = none ∧ keyIsBare true [] = false := by
   decide
+
+
+/-! ## XML -/
+
+section XML
+open Jaq.C14.Xml Jaq.C14.XmlLemmas
+
+/-- `xml_fixpoint`: `fromxml | toxml | fromxml = fromxml`.
+For EVERY token stream `ts` xmlparser can deliver (`tokOk`: qualified names have their colon only
+between prefix and local name, an external-id literal does not contain both kinds of quote) on which
+the reader succeeds with the values `vs`: the writer accepts every one of them (`ofVals vs = ok xs`:
+`toxml` never rejects what `fromxml` yields — xmldecl with standalone, doctype with external id and
+internal subset, PI, comment, CDATA, elements of any depth with any attributes incl. duplicates),
+and the tokens of what it writes (`renderL`, the recorded xmlparser contract; `inner` = whatever
+the tokenizer yields inside a DTD, only entity declarations / comments / PIs) are read back as
+exactly `vs`.  No bound on depth, width or number of top-level items. -/
+theorem xml_fixpoint (inner : S → List Tok) (hin : ∀ s, ∀ t ∈ inner s, innerTok t = true)
+    (ts : List Tok) (hts : ∀ t ∈ ts, tokOk t = true) (vs : List Val) (h : parseMany ts = .ok vs) :
+    ∃ xs, ofVals vs = .ok xs ∧ parseMany (renderL inner xs) = .ok vs := by
+  obtain ⟨xs, hxs, hre⟩ := many inner hin (ts.length + 1) ts vs hts h
+  exact ⟨xs, hxs, hre _ (Nat.le_refl _)⟩
+
+/-- a non-trivial instance: `<?xml version="1" standalone="yes"?><!DOCTYPE a SYSTEM 'a"b' [<!ENTITY ..>]>
+<x:a k="1" k="2" y:z="">t<b/><!--c--></x:a><?p?>` (duplicate attribute, prefixed names, nested element) -/
+example : ∃ vs, parseMany [.decl [49] none (some true), .dtdStart [97] (some (.system [97,34,98])) [60], .entity, .dtdEnd,
+      .estart [120] [97], .attr [] [107] [49], .attr [] [107] [50], .attr [121] [122] [], .eopen, .text [116],
+      .estart [] [98], .eempty, .comment [99], .eclose [120] [97], .pi [112] none] = .ok vs ∧ vs.length = 4 := by
+  exact ⟨_, rfl, rfl⟩
+
+/-- the external id of a DOCTYPE survives: what the reader builds from the literals
+(`SYSTEM "lit"`, with single quotes when the literal contains `"`) is parsed back by
+`parse_external_id` (byte level) to the same literals — for all literals that do not contain both
+kinds of quote (a literal cannot contain its own quote mark).  Before fix aeed175 the reader
+dropped the quotes (finding `xml:doctype-external-id`). -/
+theorem xml_doctype_external_roundtrip (e : Ext) (h : extOk (some e) = true) : parseExt (extStr e) = some e :=
+  parseExt_extStr e h
+
+/-- finding `xml:xmldecl-standalone` (fixed by aeed175), as a fact about the writer model: the value
+the OLD reader produced (`standalone: true`, a boolean) is rejected by `toxml`, whereas the value the
+current reader produces (`"yes"`) is accepted and denotes the same declaration. -/
+theorem xml_standalone_bool_rejected :
+    ofVal (Xml.singleton kXmldecl (.obj [(.tstr kVersion, .tstr [49]), (.tstr kStandalone, .bool true)])) = .error .entry ∧
+    ofVal (declVal [49] none (some true)) = .ok (.xmldecl [(kVersion, [49]), (kStandalone, sYes)]) ∧
+    declTok [(kVersion, [49]), (kStandalone, sYes)] = .decl [49] none (some true) := by
+  refine ⟨by simp [ofVal, Xml.singleton, hasKey, keyBytes, kT, kXmldecl, kVersion, kStandalone, fromKvs], ?_, ?_⟩
+  · exact ofVal_decl [49] none (some true)
+  · exact declTok_declAttrs [49] none (some true)
+
+/-- `toxml` keeps the attributes it is given in order, and attributes collected by the reader have
+pairwise different names (IndexMap): reading them back changes nothing. -/
+theorem xml_attrs_stable (a : List (S × S)) : collectS (collectS a) = collectS a := collectS_idem a
+
+/-- finding `xml:attr-double-quote` (open; `design/fixes/C14-xml-attr-quote.diff`): the CURRENT
+`write_kvs!` always uses `"`; an attribute value that contains `"` (legal between single quotes:
+`<a x='"'/>`) is written as `x="""`, which is outside the contract of `render` (`attrValueOk`
+fails), and is in fact rejected or re-read differently by the real reader.  The fixed writer
+chooses `'` for such values; then every value without both kinds of quote — every value the
+tokenizer can deliver — is written transparently. -/
+theorem xml_attr_quote_witness :
+    attrValueOk false [34] = false ∧ writeKvs false [([120], [34])] = [32, 120, 61, 34, 34, 34] ∧
+    (∀ v : S, litOk v = true → attrValueOk true v = true) := by
+  refine ⟨by decide, by decide, ?_⟩
+  intro v hv
+  unfold attrValueOk attrQuoteChar litOk at *
+  cases h : v.contains 34 <;> simp_all
+
+end XML
 
 end Jaq.C14.Props
